@@ -234,11 +234,11 @@ mod verif_ground_c04 {
         }
     }
     #[test]
-    fn g04t_npn_cover_n7() {
+    fn g04q_npn_cover_n7() {
         npn_facts(7, false, false, true);
     }
     #[test]
-    fn g04t_npn_cover_n8() {
+    fn g04q_npn_cover_n8() {
         npn_facts(8, false, false, true);
     }
     #[test]
@@ -264,7 +264,7 @@ mod verif_ground_c04 {
         npn_facts(7, false, true, false);
     }
     #[test]
-    fn g05t_npn_cert_n8() {
+    fn g05q_npn_cert_n8() {
         npn_facts(8, false, true, false);
     }
     /// vacuity guard: the evaluators reject a corrupted sequence (one entry changed)
